@@ -19,7 +19,7 @@ SPEC = {
 }
 
 TEXT = {
-    "technique": "rapid over seeds/bounds/bias with determinism (metamorphic) oracle, exact alias-table probability reconstruction, and differential against an independent SipHash-2-4 OFB",
+    "technique": "rapid over seeds/bounds/bias with determinism (metamorphic) oracle, exact alias-table probability reconstruction, differential against an independent SipHash-2-4 OFB, and sampling during concurrent re-seeding (-race in thorough)",
     "engine": "rapid (in-package harness in common/probdist) + verifkit/refsip",
     "level_text": ("Exploration. For generated seeds, the transports' bound pairs and small ranges, and both bias settings: New twice and "
                    "Reset give identical tables, values are distinct and in range, 300 samples lie in the table, and the probability of "
